@@ -9,6 +9,7 @@ import (
 	"github.com/deepteams/webp/verifharness/gen"
 	"github.com/deepteams/webp/verifharness/ref/cref"
 	"github.com/deepteams/webp/verifharness/ref/riffwalk"
+	"github.com/deepteams/webp/verifharness/ref/vp8lstrict"
 	"github.com/deepteams/webp/verifharness/ref/xref"
 	"pgregory.net/rapid"
 )
@@ -29,6 +30,9 @@ func genC03(t *rapid.T) *c03Case {
 	}
 	if c.Source == "gen" {
 		c.Prog = gen.DrawVP8L(t, max)
+		for i := range c.Prog.Transforms {
+			c.Prog.Transforms[i].Mode1415 = false // modes 14/15 are not defined by the specification (C05 still feeds them)
+		}
 		if tierThorough() && rapid.IntRange(0, 49).Draw(t, "big") == 0 {
 			// above the decoder's 100,000-pixel threshold for its parallel inverse transforms
 			c.Prog.W = rapid.IntRange(320, 400).Draw(t, "bigW")
@@ -46,6 +50,11 @@ func checkC03(c *c03Case, o *core.Obs) error {
 	switch c.Source {
 	case "gen":
 		bs, stat := c.Prog.Build()
+		if err := vp8lstrict.Validate(bs, gen.DistMapXY(), 1<<24); err != nil {
+			// the generator and the strict validator are two independent readings of the syntax
+			o.Inconclusive("generator/validator disagreement: %v", err)
+			return nil
+		}
 		parts = &stillParts{File: xref.Simple("VP8L", bs), Bitstream: bs, Lossless: true, W: c.Prog.W, H: c.Prog.H, RawToWitness: true}
 		p := c.Prog
 		tr := ""
